@@ -4,6 +4,7 @@ package main
 // given chain state (so that they pass decoding and, where possible, validation).
 
 import (
+	"bytes"
 	"github.com/golang/protobuf/proto"
 	"github.com/idena-network/idena-go/blockchain/types"
 	"github.com/idena-network/idena-go/common"
@@ -68,6 +69,24 @@ func buildCorpus(nd *node) []corpusItem {
 	h := crypto.SignatureHash(pp)
 	pp.Signature = r.Sec.Sign(h[:])
 	add("ProposeProof", "proof proposal", mustBytes(pp.ToBytes()))
+	// honestly signed but semantically wrong proposals: every sender class (validator, online pool with
+	// several members, plain account) x a proof that is somebody else's / all zero / all ones / empty
+	for _, who := range []int{world.V1, world.P, world.X1} {
+		for _, pv := range []struct {
+			n string
+			p []byte
+		}{{"foreign", proof}, {"zeros", make([]byte, len(proof))}, {"ones", bytes.Repeat([]byte{0xff}, len(proof))}, {"empty", nil}} {
+			// the node remembers the output part of every proof it has seen: keep the variants distinct
+			pb := append([]byte{}, pv.p...)
+			if len(pb) > 0 {
+				pb[len(pb)-1] ^= byte(who)
+			}
+			q := &types.ProofProposal{Proof: pb, Round: prop.Height()}
+			qh := crypto.SignatureHash(q)
+			q.Signature, _ = crypto.Sign(qh[:], replica.Key(who))
+			add("ProposeProof", "proof proposal signed by "+world.ActorNames[who]+" with "+pv.n+" proof", mustBytes(q.ToBytes()))
+		}
+	}
 	// votes
 	for step := uint8(1); step <= 2; step++ {
 		v := &types.Vote{Header: &types.VoteHeader{Round: prop.Height(), Step: step, ParentHash: r.Chain.Head.Hash(), VotedHash: prop.Hash(), TurnOffline: step == 2, Upgrade: uint32(step - 1)}}
